@@ -21,6 +21,15 @@ type Case struct {
 	Path    string   `json:"path,omitempty"`
 	Raw     *mon.Str `json:"raw,omitempty"`
 	Params  int      `json:"params,omitempty"`
+	// Hist: a two-call history sharing one parameter map of Size entries.
+	Hist *Hist `json:"hist,omitempty"`
+}
+
+// Hist is a cross-call history: the first call binds Name to Value with let.
+type Hist struct {
+	Name  string `json:"name"`
+	Value string `json:"value"`
+	Size  int    `json:"size"`
 }
 
 func init() {
@@ -80,6 +89,16 @@ func generate(w *mon.W) {
 			}
 			c := &Case{Twin: twin, Planted: planted, Plant: "wide", Path: path}
 			w.Do(fmt.Sprint("wide|", kind, "|", n), func(r *mon.R) { Check(c, r) })
+		}
+	}
+	// the let rule across calls: a name an earlier call bound with let is bound
+	// nowhere in a later source, also when both calls are given the same
+	// parameter map (of any size)
+	for _, b := range [][2]string{{"threshold", "5"}, {"lo", "-1"}, {"s", "'x'"}, {"n", "(2)"}, {"hi", "+3"}, {"p0", "7"}} {
+		for _, size := range []int{1, 3, 8, 9, 17, 41, 130} {
+			b, size := b, size
+			c := &Case{Hist: &Hist{b[0], b[1], size}}
+			w.Do(fmt.Sprint("hist|", b[0], "|", size), func(r *mon.R) { Check(c, r) })
 		}
 	}
 	// (i) either/or on hostile inputs
@@ -349,9 +368,54 @@ func eitherOr(what, src string, sql string, err error, r *mon.R) bool {
 	return true
 }
 
+// checkHistory: two calls given the same parameter map; the first binds name
+// with let, the second refers to it without binding it.
+func checkHistory(name, value string, size int, r *mon.R) {
+	pm := map[string]string{}
+	for i := 0; i < size; i++ {
+		pm[fmt.Sprintf("p%d", i)] = fmt.Sprintf("$%d", i+1)
+	}
+	fresh := map[string]string{}
+	for k, v := range pm {
+		fresh[k] = v
+	}
+	first := "let " + name + " = " + value + "; T | where a == " + name
+	second := "let cutoff = " + name + " + 1; T | where a == cutoff"
+	want, wantErr, o0 := mon.Compile(second, fresh)
+	_, err1, o1 := mon.Compile(first, pm)
+	if o0.Anomalous() || o1.Anomalous() || err1 != nil {
+		r.Inconclusive("foreign_compile")
+		return
+	}
+	if o1.Mutated != "" {
+		r.Violation("", "Compile(%q) with a %d-entry parameter map wrote to that map (%s): a later source that binds %s nowhere would see it bound", first, size, o1.Mutated, name)
+		return
+	}
+	got, gotErr, o2 := mon.Compile(second, pm)
+	if o2.Anomalous() {
+		r.Inconclusive("foreign_compile")
+		return
+	}
+	if (gotErr == nil) != (wantErr == nil) || got != want {
+		r.Violation("", "Compile(%q) gives (%q, %v) after Compile(%q) was given the same %d-entry parameter map, and (%q, %v) with an equal fresh map: a let value may only refer to bindings of its own source and the parameters", second, got, gotErr, first, size, want, wantErr)
+		return
+	}
+	_, bound := pm[name]
+	if !bound && gotErr == nil {
+		r.Violation("", "Compile(%q) succeeds although %s is bound nowhere in it", second, name)
+		return
+	}
+	r.Nontrivial()
+	r.Count("cross_call_histories", 1)
+}
+
 // Check decides one case.
 func Check(c *Case, r *mon.R) {
 	r.Case = c
+	if c.Hist != nil {
+		checkHistory(c.Hist.Name, c.Hist.Value, c.Hist.Size, r)
+		return
+	}
 	if c.Raw != nil {
 		src := string(*c.Raw)
 		sql, err, o := mon.Compile(src, gen.ParamMaps[c.Params%len(gen.ParamMaps)])
